@@ -372,7 +372,11 @@ def to_vector(c):
     if c is None or c is False:
         return c
     if hasattr(c, vector):
-        return c
+        # normalize (a vector that already has unit length is left as it is)
+        norm = np.sqrt((c**2).sum(vector))
+        if np.allclose(norm, 1, rtol=1e-14, atol=0):
+            return c
+        return c / norm
     if isinstance(c, dict):
         c = c.copy()
         for key, val in c.items():
